@@ -392,7 +392,12 @@ func Main() (ran bool, err error) {
 		defer func() {
 			if r := recover(); r != nil {
 				where, inCUT := panicSite(string(debug.Stack()))
-				if inCUT {
+				if rf, ok := r.(Refused); ok {
+					// a helper that prepares inputs through the library was refused a call every
+					// property requires to succeed: that is the library's doing, not the harness's
+					c.res.Exhaustive = false
+					c.Violation(fmt.Sprintf("%s legal call refused: %s", c.Job, rf.What), fmt.Sprintf("case %d: %s returned %v; stage %q", c.curIndex, rf.What, rf.Err, c.stage), map[string]interface{}{"call": rf.What, "error": fmt.Sprint(rf.Err)})
+				} else if inCUT {
 					// the code under test panicked on an input the harness considers ordinary
 					c.res.Exhaustive = false
 					c.Violation(fmt.Sprintf("%s panic in code under test at %s", c.Job, where), fmt.Sprintf("case %d: panic in the code under test: %v (at %s); stage %q", c.curIndex, r, where, c.stage), map[string]interface{}{"panic": fmt.Sprint(r), "site": where})
@@ -405,6 +410,13 @@ func Main() (ran bool, err error) {
 	}()
 	c.Finish()
 	return true, nil
+}
+
+// Refused is the panic value of harness helpers that obtain inputs from the library (signing an
+// honest message under legal options) when the library refuses: reported as a violation.
+type Refused struct {
+	What string
+	Err  error
 }
 
 // panicSite finds the frame that raised the panic and says whether it belongs to the code under
